@@ -181,6 +181,7 @@ class Executor:
         self.inline_all = False
         self.lemma_mode = False
         self.assert_count = 0
+        self.named_ghosts = {}
         from . import prelude
         self.prelude = prelude
         self.builtins = prelude.make_builtins(self)
@@ -271,19 +272,18 @@ class Executor:
             kl = kl.parent
         return None, None
 
-    def heap_leaves(self, kl, field, T):
-        key = (kl.sort_name, field)
+    def heap_leaves(self, sn, field, T):
+        """Field arrays are indexed by the object's own sort: an inherited field
+        has one array per subclass sort (contracts are polymorphic in `self`)."""
+        key = (sn, field)
         if key not in self.heap:
-            S = usort(kl.sort_name)
-            self.heap[key] = [z3.Const('H_%s_%s.%d' % (kl.sort_name, field, i),
-                                       z3.ArraySort(S, s))
-                              for i, s in enumerate(T.leaf_sorts())]
+            self.heap[key] = self.initial_leaves(key)
         return self.heap[key]
 
     def initial_leaves(self, key):
         kl, T = self.field_decl(key[0], key[1])
-        S = usort(kl.sort_name)
-        return [z3.Const('H_%s_%s.%d' % (kl.sort_name, key[1], i), z3.ArraySort(S, s))
+        S = usort(key[0])
+        return [z3.Const('H_%s_%s.%d' % (key[0], key[1], i), z3.ArraySort(S, s))
                 for i, s in enumerate(T.leaf_sorts())]
 
     def read_field(self, obj_t, field):
@@ -293,38 +293,47 @@ class Executor:
             return None
         if isinstance(T, ClassLevel):
             return T.read(self, obj_t)
-        o = self.upcast(obj_t, kl)
-        if isinstance(T, (TSet, TDict, TList)) or (isinstance(T, TTuple) and False):
-            def get(kl=kl, field=field, T=T, o=o):
-                return T.from_leaves([a[o] for a in self.heap_leaves(kl, field, T)])
+        o = obj_t
+        if isinstance(T, (TSet, TDict, TList)):
+            def get(sn=sn, field=field, T=T, o=o):
+                return T.from_leaves([a[o] for a in self.heap_leaves(sn, field, T)])
 
-            def set_(v, kl=kl, field=field, T=T, o=o):
-                self.write_field_raw(kl, field, T, o, v)
+            def set_(v, sn=sn, field=field, T=T, o=o):
+                self.write_field_raw(sn, field, T, o, v)
             return Loc(get, set_, T, '%s.%s' % (obj_t, field))
-        return T.from_leaves([a[o] for a in self.heap_leaves(kl, field, T)])
+        v = T.from_leaves([a[o] for a in self.heap_leaves(sn, field, T)])
+        if isinstance(v, ZV):
+            self.spec.note_allocated(self, v.t)
+        return v
 
-    def upcast(self, obj_t, kl):
-        """Objects of a subclass sort seen as their ancestor's sort."""
-        if obj_t.sort().name() == kl.sort_name:
-            return obj_t
-        f = z3.Function('up_%s_%s' % (obj_t.sort().name(), kl.sort_name),
-                        obj_t.sort(), usort(kl.sort_name))
-        return f(obj_t)
+    def adapt(self, v, T):
+        """A tuple/list built from a duplicate-free source stored where the model
+        keeps a set (see specs: tuple of dict items)."""
+        dv = deref(v)
+        if isinstance(T, TSet) and isinstance(dv, ListV):
+            return self.prelude.list_to_set(self, dv, T.K)
+        return v
 
-    def write_field_raw(self, kl, field, T, o, v):
-        leaves = self.heap_leaves(kl, field, T)
+    def write_field_raw(self, sn, field, T, o, v):
+        v = self.adapt(v, T)
+        leaves = self.heap_leaves(sn, field, T)
         lv = T.to_leaves(v)
-        self.heap[(kl.sort_name, field)] = [z3.Store(a, o, l)
-                                            for a, l in zip(leaves, lv)]
+        self.heap[(sn, field)] = [z3.Store(a, o, l) for a, l in zip(leaves, lv)]
 
     def write_field(self, obj_t, field, v):
         sn = obj_t.sort().name()
         kl, T = self.field_decl(sn, field)
         if kl is None:
-            self.unsupported('write to undeclared field %s.%s' % (sn, field))
+            # a store the contracts know nothing about: reported as a frame
+            # violation of the function under verification, not skipped
+            self.oblige('%s:frame.undeclared-field.%s.%s' % (self.fn_name, sn, field),
+                        z3.BoolVal(False), kind='frame', role='prop', assume_after=False)
+            return
+        if isinstance(T, ClassLevel):
+            self.unsupported('store to class-level field %s.%s' % (sn, field))
         if isinstance(v, Loc) and isinstance(T, (TSet, TDict, TList)):
             self.unsupported('aliasing store of a heap container into %s.%s' % (sn, field))
-        self.write_field_raw(kl, field, T, self.upcast(obj_t, kl), v)
+        self.write_field_raw(sn, field, T, obj_t, v)
 
     def snapshot(self):
         return {'heap': dict(self.heap), 'ghost': dict(self.ghost)}
@@ -626,6 +635,11 @@ class Executor:
         v = deref(v)
         if isinstance(v, TupV):
             return list(v.items)
+        if isinstance(v, ZV) and v.t.sort().kind() == z3.Z3_DATATYPE_SORT:
+            from . import theory
+            ts = theory.tuple_sort_of(v.t.sort())
+            if ts is not None:
+                return ts.unpack(v.t)
         if isinstance(v, Con):
             if isinstance(v.v, (tuple, list)):
                 return [x if isinstance(x, Val) else Con(x) for x in v.v]
@@ -639,6 +653,8 @@ class Executor:
 
     def has_concrete_len(self, v):
         v = deref(v)
+        if isinstance(v, ZV) and v.t.sort().kind() == z3.Z3_DATATYPE_SORT:
+            return True
         return isinstance(v, TupV) or (isinstance(v, Con) and isinstance(
             v.v, (tuple, list, str, range, dict)))
 
